@@ -11,41 +11,62 @@ import (
 // other order of the menu costs one deviation. Outside an execution the canonical order is used, which
 // also makes schedules independent of the runtime's hash seed.
 
+// keyLess is a total order on map keys (kind class, then value, then dynamic type name): the canonical iteration
+// order must not depend on the order the runtime happens to deliver keys in, also when keys of different dynamic
+// types compare equal by value ("a" and a named string type's "a" in a map[any]any).
 func keyLess(a, b any) bool {
-	switch x := a.(type) {
-	case string:
-		if y, ok := b.(string); ok {
-			return x < y
-		}
-	case int64:
-		if y, ok := b.(int64); ok {
-			return x < y
-		}
-	case int:
-		if y, ok := b.(int); ok {
-			return x < y
-		}
-	case uint64:
-		if y, ok := b.(uint64); ok {
-			return x < y
-		}
+	ra, rb := keyRank(a), keyRank(b)
+	if ra != rb {
+		return ra < rb
 	}
 	va, vb := reflect.ValueOf(a), reflect.ValueOf(b)
-	if va.IsValid() && vb.IsValid() && va.Kind() == vb.Kind() {
-		switch va.Kind() {
-		case reflect.String:
-			return va.String() < vb.String()
-		case reflect.Int, reflect.Int8, reflect.Int16, reflect.Int32, reflect.Int64:
+	switch ra {
+	case 1:
+		if va.Bool() != vb.Bool() {
+			return !va.Bool()
+		}
+	case 2:
+		if va.Int() != vb.Int() {
 			return va.Int() < vb.Int()
-		case reflect.Uint, reflect.Uint8, reflect.Uint16, reflect.Uint32, reflect.Uint64:
+		}
+	case 3:
+		if va.Uint() != vb.Uint() {
 			return va.Uint() < vb.Uint()
-		case reflect.Float32, reflect.Float64:
+		}
+	case 4:
+		if va.Float() != vb.Float() {
 			return va.Float() < vb.Float()
-		case reflect.Bool:
-			return !va.Bool() && vb.Bool()
+		}
+	case 5:
+		if va.String() != vb.String() {
+			return va.String() < vb.String()
 		}
 	}
-	return fmt.Sprintf("%T|%v", a, a) < fmt.Sprintf("%T|%v", b, b)
+	ta, tb := fmt.Sprintf("%T", a), fmt.Sprintf("%T", b)
+	if ta != tb {
+		return ta < tb
+	}
+	return fmt.Sprintf("%v", a) < fmt.Sprintf("%v", b)
+}
+
+func keyRank(a any) int {
+	v := reflect.ValueOf(a)
+	if !v.IsValid() {
+		return 0
+	}
+	switch v.Kind() {
+	case reflect.Bool:
+		return 1
+	case reflect.Int, reflect.Int8, reflect.Int16, reflect.Int32, reflect.Int64:
+		return 2
+	case reflect.Uint, reflect.Uint8, reflect.Uint16, reflect.Uint32, reflect.Uint64, reflect.Uintptr:
+		return 3
+	case reflect.Float32, reflect.Float64:
+		return 4
+	case reflect.String:
+		return 5
+	}
+	return 6
 }
 
 // permMenuSize returns how many orders the menu offers for n keys.
